@@ -17,6 +17,8 @@
      lkreply <q> <hasr> <id|-> <tok|-|none> <payload|-> <v|-> <k|-> <sig|-> <seq|->   => ok
      lknoreply <q> | lkctx | lkclose | lkstoptrav | lkconsumerstop     => ok
      lkend => sends <n> <dest|tok|ih|port|imp|seq>*n peers <m> <addr|id|payload>*m closed <b> res <r> done <b> panic <b>
+       (after Close() / a cancelled ctx the observed sends, after Close() the observed deliveries, may be any
+        sub-multiset of the model's)
 *)
 module BZ = Z   (* Zarith, before Model's extracted module Z shadows it *)
 open Model
@@ -114,6 +116,7 @@ let tok_of_addr (a : n) : string =
 let mk_cfg api sn target ann tgt salt = rl_mk_cfg (nat_of_int api) (nat_of_int sn) target ann tgt salt
 let lkcfg = ref (mk_cfg 0 0 N0 None [] [])
 let lkst = ref None
+let lklate : int list ref = ref []   (* harness numbers of queries issued in the race window of a Stop() *)
 
 let with_state f : string =
   match !lkst with
@@ -163,7 +166,7 @@ let () =
          key but no seq is ignored (D2 repaired), a delivery is given up only once the announce has been closed
          (D10 repaired: a.closed.Done()) *)
       let c = mk_cfg api sn (n_of_hex target) ann (bytes_of_hex tgt) (bytes_of_hex salt) in
-      lkcfg := c; Hashtbl.reset ipw;
+      lkcfg := c; Hashtbl.reset ipw; lklate := [];
       lkedmiss := false;
       lkst := Some (rl_init lkedv c);
       "ok"
@@ -171,18 +174,38 @@ let () =
   reg "lkissue" (fun a _ -> match a with
     | [q; ad] ->
       (match !lkst with
-       | Some s when int_of_nat (rl_view_nq s) <> int_of_string q -> "REJECT query-number model=" ^ string_of_int (int_of_nat (rl_view_nq s))
-       | _ -> with_state (fun s -> rl_event lkedv !lkcfg s (REvIssue (addr_of_tok ad))))
+       | None -> "REJECT no-case"
+       | Some s ->
+         let q = int_of_string q in
+         let nq = int_of_nat (rl_view_nq s) in
+         if nq + List.length !lklate <> q then "REJECT query-number model=" ^ string_of_int (nq + List.length !lklate)
+         else begin
+           let r = with_state (fun s -> rl_event lkedv !lkcfg s (REvIssue (addr_of_tok ad))) in
+           (match !lkst with
+            | Some s' when int_of_nat (rl_view_nq s') = nq ->
+              (* not a step of the model now.  The one legitimate cause: Stop() was called while the run loop
+                 was in the middle of starting queries; such a query is cancelled at once and has no effect
+                 (in the model it is a TIssue that precedes the Stop).  Anything else is a disagreement. *)
+              if rl_view_stopping s' then (lklate := q :: !lklate; r) else "REJECT query-issued-while-model-cannot"
+            | _ -> r)
+         end)
     | _ -> "?");
   reg "lkreply" (fun a _ -> match a with
     | [q; hasr; id; tok; payload; v; k; sg; seq] ->
+      let qh = int_of_string q in
+      if List.mem qh !lklate then "ok" else begin
+      let qm = qh - List.length (List.filter (fun l -> l < qh) !lklate) in
       let r = rl_mk_reply (bool_of_tok hasr) (if id = "-" then N0 else n_of_hex id)
           (if tok = "none" then None else Some (bytes_of_hex tok)) (bytes_of_hex payload)
           (bytes_of_hex v) (fixed_hex k 32) (fixed_hex sg 64) (if seq = "-" then None else Some (z_of_dec seq)) in
-      with_state (fun s -> rl_event lkedv !lkcfg s (REvReply (nat_of_int (int_of_string q), r)))
+      with_state (fun s -> rl_event lkedv !lkcfg s (REvReply (nat_of_int qm, r))) end
     | _ -> "?");
   reg "lknoreply" (fun a _ -> match a with
-    | [q] -> with_state (fun s -> rl_event lkedv !lkcfg s (REvNoReply (nat_of_int (int_of_string q))))
+    | [q] ->
+      let qh = int_of_string q in
+      if List.mem qh !lklate then "ok" else
+        let qm = qh - List.length (List.filter (fun l -> l < qh) !lklate) in
+        with_state (fun s -> rl_event lkedv !lkcfg s (REvNoReply (nat_of_int qm)))
     | _ -> "?");
   reg "lkctx" (fun _ _ -> with_state (fun s -> rl_event lkedv !lkcfg s REvCtx));
   reg "lkclose" (fun _ _ -> with_state (fun s -> rl_event lkedv !lkcfg s REvClose));
@@ -215,6 +238,20 @@ let () =
         (match obs_sends with
          | Some os when cancelled && sub_multiset (List.sort compare os) sends -> List.sort compare os
          | _ -> sends) in
+      (* observed deliveries: once Close() was called a response still waiting for the consumer may be
+         given up or delivered (both branches of getPeers' select are ready): any sub-multiset of what the
+         model delivers to a reading consumer is allowed then, otherwise all of it *)
+      let obs_peers =
+        (match o with
+         | "sends" :: n :: rest ->
+           (match drop (int_of_string n) rest with
+            | "peers" :: m :: rest' -> Some (take (int_of_string m) rest')
+            | _ -> None)
+         | _ -> None) in
+      let peers =
+        (match obs_peers with
+         | Some op when aclosed && sub_multiset (List.sort compare op) peers -> List.sort compare op
+         | _ -> peers) in
       let b2s b = if b then "1" else "0" in
       let line =
         String.concat " "
